@@ -548,6 +548,31 @@ def check_redirect(rep, http):
     rep.expect('R16.d', orig and not f.in_cycle(nb), 'final-is-original',
                'next.run is outside the loop and receives the original request value',
                'next.run in Redirect::handle is inside the loop or no longer receives the original request: %s' % [repr(o) for o in final_src])
+    # where the last probe went is where the original request goes: either the probe is a clone of the very request handed to next.run
+    # and every URL write is on that request, or — when the probe is a request of its own — nothing leads from a write of the probe's
+    # URL to next.run without a write of the original request's URL in between (the loop can end because the limit is used up just
+    # as well as because a probe was answered)
+    AS_MUT = [('core::convert::AsMut::as_mut', 0), ('core::ops::deref::DerefMut::deref_mut', 0), ('core::borrow::BorrowMut::borrow_mut', 0)]
+
+    def _root(operand):
+        return sorted(set((o.kind, getattr(o, 'n', getattr(o, 'bb', None)), tuple(x for x in o.suffix if x != '*')) for o in origins(f, operand, extra_identity=AS_MUT)))
+    final_root = _root(nt['args'][1])
+    clone_recv = [_root(o.term['args'][0]) for o in probe_src if o.kind == 'call' and call_matches(o.term, ['core::clone::Clone::clone'])]
+    uw = [(bb, _root(t['args'][0])) for g in [f] for bb, t in g.calls() if re.search(r'::request::Request::url_mut$', norm(t.get('callee') or ''))]
+
+    def _same(r):
+        # the place is the request handed to next.run, or a part of it (the wrapped http_types request)
+        return bool(r) and all(any(k == fk and n == fn_ and sfx[:len(fs)] == fs for fk, fn_, fs in final_root) for k, n, sfx in r)
+    on_final = [bb for bb, r in uw if _same(r)]
+    elsewhere = [bb for bb, r in uw if not _same(r)]
+    form_a = bool(clone_recv) and all(_same(r) for r in clone_recv) and not elsewhere
+    form_b = bool(elsewhere) and bool(on_final) and all(nb not in f.reachable_after(w, removed_blocks=on_final) for w in elsewhere)
+    rep.expect('R16.d', bool(final_root) and (form_a or form_b), 'final-goes-where-the-last-probe-went',
+               'the probe is a clone of the request handed to next.run and all %d URL write(s) are on it' % len(uw) if form_a else
+               'every write of the probe URL is followed by a write of the original request URL before next.run',
+               'Redirect::handle: the request handed to next.run can be left at an earlier URL than the last probe (URL writes on the original '
+               'request at %s, on another request at %s, probe cloned from the original: %s) — e.g. when the loop ends because the attempt '
+               'limit is used up' % ([f.where(b) for b in on_final], [f.where(b) for b in elsewhere], bool(clone_recv) and all(_same(r) for r in clone_recv)))
     # what Redirect hands back on success is what the rest of the chain returned for the ORIGINAL request: the Ok payload of the return
     # value is the awaited next.run, never a probe's response (a probe went to the shell directly, past the middleware stacked below)
     ret_ok = origins(f, {'l': 0, 'p': ['as Ok', '.0']})
